@@ -23,6 +23,8 @@ Lemma nf_emit {A} ev (a : A) s : nf (emit ev a s).
 Proof. unfold nf, emit; discriminate. Qed.
 Lemma nf_revert {A} : nf (@Fail A Revert).
 Proof. unfold nf; discriminate. Qed.
+Lemma nf_revertmsg {A} k : nf (@Fail A (RevertMsg k)).
+Proof. unfold nf; discriminate. Qed.
 Lemma nf_stuck {A} : nf (@Fail A Stuck).
 Proof. unfold nf; discriminate. Qed.
 Lemma nf_ok {A} (a : A) s t : nf (Ok a s t).
@@ -127,7 +129,7 @@ Definition all_nf (n : nat) : Prop :=
   (forall k c s, fits_s k n c -> nf (exec P ce n c s)) /\
   (forall k b s, fits_b k n b -> nf (exec_block P ce n b s)).
 
-Ltac fin := first [apply nf_ret | apply nf_emit | apply nf_revert | apply nf_stuck | apply nf_ok].
+Ltac fin := first [apply nf_ret | apply nf_emit | apply nf_revert | apply nf_revertmsg | apply nf_stuck | apply nf_ok].
 
 Ltac crush IHe IHl IHp IHc IHs IHb k :=
   repeat first
